@@ -536,13 +536,17 @@ def run_path(c, h, case, twin):
         # that the concrete fallback below can still look at this path
         try:
             old = c.ex.deadline
-            c.ex.deadline = time.time() + 20
+            c.ex.deadline = time.time() + 30
+            c.solver.set('timeout', 5000)
             r, m = c._check()
             c.ex.deadline = old
         except BaseException:
-            raise e
+            r, m = 'unknown', None
+        if r != 'sat' and c.last_model is not None:
+            # any earlier model of (a prefix of) this path: the concrete replay decides
+            r, m = 'sat', c.last_model
         if r != 'sat':
-            raise
+            raise e
         ex = SymEx(c, case, twin)
         ex.choices = [d[1] for d in c.trace if isinstance(d, tuple) and d[0] == 'ch']
         return {'claims': [], 'error': ('engine', 'budget: %s' % e, ''), 'witness': ex._model(m),
